@@ -1,7 +1,7 @@
 (* C06 - Configured weights are honoured exactly.  Only statements here; proofs by `exact`. *)
 From Coq Require Import List ZArith String Permutation.
 From Coq Require Import QArith Qabs.
-From MV Require Import Gen.SrcTokens Model.WCluster Model.Edf Model.EdfHeap Model.EdfVar Proofs.WCluster Proofs.Edf Proofs.EdfHeap Proofs.EdfQ Proofs.EdfVar.
+From MV Require Import Gen.SrcTokens Model.WCluster Model.Edf Model.EdfHeap Model.EdfVar Model.EdfHealth Proofs.WCluster Proofs.Edf Proofs.EdfHeap Proofs.EdfQ Proofs.EdfVar Proofs.EdfHealth.
 Import ListNotations.
 Open Scope Z_scope.
 
@@ -185,3 +185,39 @@ Example c06_weight_change_example :
     edf_runw sm (fun i => 4 / WA i) [0%nat; 0%nat; 1%nat; 0%nat; 0%nat] = Some s1 /\
     List.length (es s0) = 3%nat.
 Proof. cbn zeta. eexists; eexists; eexists; split; [vm_compute; reflexivity|split; [vm_compute; reflexivity|split; vm_compute; reflexivity]]. Qed.
+
+(* HEALTH flips under the weighted round robin balancer.  READ FROM loadbalancer.go on this run: refresh queues
+   EVERY host of the host set whatever its health (one unconditional Add in the Range callback) and ChooseHost
+   takes up to `total` scheduler picks, returning the first healthy one (then the unweighted fallback, which does
+   not touch the scheduler).  `edf_observe_all` is the set of scheduler states compatible with an observed history
+   of (unhealthy flags, host returned).  Whatever hosts were unhealthy when the balancer was built or while earlier
+   picks were made, once all hosts are healthy every window of picks satisfies the bound - without a rebuild. *)
+Theorem c06_wrr_source_shape : edf_refresh_adds_every_host = true.
+Proof. exact (eq_refl true). Qed.
+
+Theorem c06_wrr_window_after_health_flips : forall ws pre s0 obs s1 picks s2,
+  Forall (fun w => 0 < w) ws ->
+  edf_run (edf_of_weights ws) pre = Some s0 ->
+  In s1 (edf_observe_all [s0] obs) -> edf_run s1 picks = Some s2 ->
+  forall i j wi wj, nth_error ws i = Some wi -> nth_error ws j = Some wj ->
+  Z.abs (count_pick i picks * wj - count_pick j picks * wi) <= wi + wj.
+Proof. exact wrr_window_after_health_flips_weights. Qed.
+Print Assumptions c06_wrr_window_after_health_flips.
+
+(* queueing only the hosts that are healthy at build time is refuted: weights 1,2,5 with the weight-5 host down
+   at build time: it is never picked after it recovers, and a 5-pick window already violates the bound *)
+Theorem c06_queue_only_healthy_refuted :
+  (forall picks s', edf_run only_healthy_start picks = Some s' -> count_pick 2 picks = 0) /\
+  exists picks s', edf_run only_healthy_start picks = Some s' /\
+    ~ (Z.abs (count_pick 2 picks * 2 - count_pick 1 picks * 5) <= 5 + 2).
+Proof.
+  split; [exact queue_only_healthy_refuted|].
+  exists [1; 1; 0; 1; 1]%nat. eexists. split; [vm_compute; reflexivity|]. vm_compute. intros H; apply H; reflexivity.
+Qed.
+Print Assumptions c06_queue_only_healthy_refuted.
+
+Example c06_health_flip_example :
+  existsb (fun s1 => match edf_run s1 [1%nat; 2%nat; 2%nat] with Some _ => true | None => false end)
+          (edf_observe_all [edf_of_weights [1; 2; 4]]
+             [([false; false; true], 1%nat); ([false; false; true], 0%nat)]) = true.
+Proof. vm_compute. reflexivity. Qed.
